@@ -2,7 +2,8 @@
    Statements only; proofs live in Proofs/.  `all_settings` is regenerated from /repo on every run. *)
 From Coq Require Import ZArith List Bool String.
 From DS Require Import Base.ZMat Base.SGDefs Model.GroupCheck Model.LatRuleDefs Model.LatRule Gen.SGTables Gen.LatRules.
-From DS Require Import Proofs.LatRuleSound Proofs.C03All Proofs.C03Counts Proofs.C03LatPar.
+From DS Require Import Proofs.LatRuleSound Proofs.C03All Proofs.C03Counts Proofs.C03LatPar Proofs.C03_Lower Proofs.C03_Type.
+From DS Require Import Model.C03_Type.
 
 (* identity first, listed once each, closed under composition and inversion modulo lattice
    translations, entries in {-1,0,1}, det +-1, translations k/12 in [0,1) *)
@@ -43,3 +44,25 @@ Print Assumptions C03_latpar_rejects_lower_partial.
 
 Theorem C03_latpar_accepts_own_generic : accepts_own_ok rule_table = true.
 Proof. exact accepts_own_b. Qed.
+
+(* rejection of cells that only a lower crystal system allows, for ALL real cells: every cell the translated rule of a system
+   accepts has the full lattice symmetry (holohedry) of that system in one of its standard orientations (unique axis b, c or a
+   for monoclinic; rhombohedral or hexagonal axes for trigonal), hence a cell left invariant by none of them is rejected *)
+Theorem C03_latpar_accepted_cells_have_the_holohedry : forall sys r c,
+  lookup_rule rule_table sys = Some r -> interp r c ->
+  exists gens, In gens (holohedries sys) /\ forall R, In R gens -> invariant R c.
+Proof. exact accepted_cells_have_the_holohedry. Qed.
+Print Assumptions C03_latpar_accepted_cells_have_the_holohedry.
+Theorem C03_latpar_rejects_lower : forall sys r c,
+  lookup_rule rule_table sys = Some r ->
+  (forall gens, In gens (holohedries sys) -> exists R, In R gens /\ ~ invariant R c) -> ~ interp r c.
+Proof. exact lower_symmetry_cells_rejected. Qed.
+
+(* International Tables number vs operations, partial (no reference table exists offline): all settings that share
+   `number mod 1000` have the same affine-invariant type fingerprint - for every distinct rotation part its (trace, det) type and
+   whether it is a pure rotation/mirror or necessarily a screw/glide (Model/C03_Type.v) - except the recorded setting #3004 *)
+Theorem C03_same_number_same_type_partial : same_number_same_type known_misnumbered all_settings = true.
+Proof. exact same_type_b. Qed.
+Print Assumptions C03_same_number_same_type_partial.
+Theorem C03_same_number_same_type_refuted_for_3004 : same_number_same_type nil all_settings = false.
+Proof. exact same_type_all_refuted. Qed.
